@@ -455,3 +455,34 @@ impl VT for std::time::SystemTime {
     fn enc(&self, _out: &mut RefBuf) { unimplemented!() }
     fn same(&self, o: &Self) -> bool { *self == *o }
 }
+
+impl<const C: usize> VT for arrayvec::ArrayString<C> {
+    fn any() -> Self {
+        let mut d = arrayvec::ArrayString::<C>::new();
+        let l = shape_len();
+        if l >= 1 && C >= 1 { d.push(any_ascii() as char); }
+        if l >= 2 && C >= 2 { d.push(any_ascii() as char); }
+        if l >= 3 && C >= 3 { d.push(any_ascii() as char); }
+        d
+    }
+    fn enc(&self, out: &mut RefBuf) {
+        let by = self.as_bytes();
+        out.put(&(by.len() as u64).to_le_bytes());
+        let mut i = 0;
+        while i < by.len() {
+            out.put(&[by[i]]);
+            i += 1;
+        }
+    }
+    fn same(&self, o: &Self) -> bool {
+        let (a, b) = (self.as_bytes(), o.as_bytes());
+        if a.len() != b.len() { return false; }
+        let mut i = 0;
+        while i < a.len() {
+            if a[i] != b[i] { return false; }
+            i += 1;
+        }
+        true
+    }
+    fn wire_len(&self) -> u128 { 8 + self.len() as u128 }
+}
